@@ -1,12 +1,1123 @@
-// Package c18 decides C18 (see /verif/DESIGN.md §7).
+// Package c18 decides C18: every configuration option obeys flag > file > default and survives save/load; a
+// genesis file written by the node loads back equal and an invalid genesis is refused (see /verif/DESIGN.md §7).
+//
+// The code under test is run for real: cobra command + config.AddFlags + config.AddGlobalFlags, ParseFlags,
+// config.Load, (*Config).SaveAsYaml, config.LoadFromViper, genesis.Save / LoadGenesis / CreateGenesis. The oracle is
+// a reference model over "option path -> value" maps: expected = defaults, overwritten by what the file says,
+// overwritten by what the flags say. Options and flags are discovered by reflection; the files of the precedence
+// cases are written by the harness's own YAML writer (never by the code under test).
 package c18
 
-import "verifharness/vk"
+import (
+	"errors"
+	"fmt"
+	"math/rand"
+	"os"
+	"path/filepath"
+	"sort"
+	"strings"
+
+	"github.com/evstack/ev-node/pkg/config"
+	"github.com/spf13/viper"
+
+	"verifharness/vk"
+)
 
 // Level is the verification level claimed for this property.
 const Level = "exploration"
 
+const idAlias = "C18-default-aliasing" // Load decodes through the *InstrumentationConfig shared with DefaultConfig
+
+// Assign is one option given by one source.
+type Assign struct {
+	Path string `json:"path"`
+	Flag string `json:"flag,omitempty"` // flag name when the source is the command line
+	Text string `json:"text"`           // YAML scalar text / flag text
+	Bare bool   `json:"bare,omitempty"`
+	val  any
+}
+
+// Case is one generated load scenario (also the witness of a violation).
+type Case struct {
+	Region   string   `json:"region"`
+	Field    string   `json:"field,omitempty"`
+	Pattern  string   `json:"pattern,omitempty"`
+	File     []Assign `json:"file,omitempty"`
+	Flags    []Assign `json:"flags,omitempty"`
+	FileText string   `json:"file_text,omitempty"` // exact content of <home>/config/evnode.yaml ("" with HasFile=false: no file)
+	HasFile  bool     `json:"has_file"`
+	Args     []string `json:"args,omitempty"`
+}
+
+type harness struct {
+	r            *vk.Run
+	d            *Discovery
+	def          Vals
+	defCfg       config.Config
+	defIns       *config.InstrumentationConfig
+	scratch      string
+	home         string
+	cfgPath      string
+	calls        map[string]int
+	sigs         map[string]int
+	nSample      int
+	keepDefaults bool // sequences(): let one Load see what the previous one left behind
+	clean        []string
+	fileOK       map[string]bool // option -> set from the file with a non-default value
+	flagOK       map[string]bool // flag name -> reached its option with a value different from the competing source
+}
+
+func tempDir(root, pattern string) string {
+	base := filepath.Join(root, "out", "tmp")
+	_ = os.MkdirAll(base, 0o755)
+	d, err := os.MkdirTemp(base, pattern)
+	if err != nil {
+		panic(fmt.Sprintf("tempdir: %v", err))
+	}
+	return d
+}
+
+// finding forwards to r.Finding; for an id that is not listed (every call would print a VIOLATION line) only the
+// first occurrence per clause is forwarded. The occurrences are counted in any case.
+func (h *harness) finding(id, clause, detail string, witness any) {
+	h.r.Count("finding_occurrences:"+id, 1)
+	h.calls[id+"|"+clause]++
+	if h.calls[id+"|"+clause] == 1 || h.r.IsKnown(id) {
+		h.r.Finding(id, clause, detail, witness)
+	}
+}
+
+// violation reports the first violation of each (clause, signature) and counts the repetitions: one broken option
+// shows up in hundreds of cases, the bounded VIOLATION list should show the different failures instead.
+func (h *harness) violation(clause, sig, detail string, witness any) {
+	k := clause + "|" + sig
+	h.sigs[k]++
+	if h.sigs[k] > 1 {
+		h.r.Count("violations_with_an_already_reported_signature", 1)
+		return
+	}
+	h.r.Violation(clause, detail, witness)
+}
+
+func diffSig(ds []Diff) string {
+	var p []string
+	for _, d := range ds {
+		p = append(p, d.Path)
+	}
+	return strings.Join(p, ",")
+}
+
+func errSig(err error) string {
+	s := err.Error()
+	if len(s) > 120 {
+		s = s[:120]
+	}
+	return s
+}
+
+// ---- the harness's own YAML writer -----------------------------------------------------------
+
+type ynode struct {
+	key  string
+	text string
+	kids []*ynode
+}
+
+func renderYAML(as []Assign) string {
+	root := &ynode{}
+	for _, a := range as {
+		n := root
+		parts := strings.Split(a.Path, ".")
+		for i, p := range parts {
+			var c *ynode
+			for _, k := range n.kids {
+				if k.key == p {
+					c = k
+				}
+			}
+			if c == nil {
+				c = &ynode{key: p}
+				n.kids = append(n.kids, c)
+			}
+			if i == len(parts)-1 {
+				c.text = a.Text
+			}
+			n = c
+		}
+	}
+	var sb strings.Builder
+	var emit func(n *ynode, ind string)
+	emit = func(n *ynode, ind string) {
+		for _, k := range n.kids {
+			if len(k.kids) > 0 {
+				sb.WriteString(ind + k.key + ":\n")
+				emit(k, ind+"  ")
+			} else {
+				sb.WriteString(ind + k.key + ": " + k.text + "\n")
+			}
+		}
+	}
+	emit(root, "")
+	return sb.String()
+}
+
+// ---- running the code under test -----------------------------------------------------------------
+
+type outcome struct {
+	Vals     Vals
+	Cfg      config.Config
+	RootDir  string
+	ParseErr error
+	Err      error
+	Panic    string
+}
+
+func (h *harness) restoreDefaults() {
+	if h.keepDefaults {
+		return
+	}
+	config.DefaultConfig = h.defCfg
+	if h.defIns != nil {
+		ins := *h.defIns
+		config.DefaultConfig.Instrumentation = &ins
+	}
+}
+
+func args(flags []Assign) []string {
+	var out []string
+	for _, f := range flags {
+		if f.Bare {
+			out = append(out, "--"+f.Flag)
+		} else {
+			out = append(out, "--"+f.Flag+"="+f.Text)
+		}
+	}
+	return out
+}
+
+func (h *harness) setFile(c *Case) {
+	if !c.HasFile {
+		_ = os.Remove(h.cfgPath)
+		return
+	}
+	_ = os.MkdirAll(filepath.Dir(h.cfgPath), 0o755)
+	if err := os.WriteFile(h.cfgPath, []byte(c.FileText), 0o600); err != nil {
+		panic(err)
+	}
+}
+
+// load runs ParseFlags + config.Load on a fresh command. The file must be in place.
+func (h *harness) load(c *Case) (o outcome) {
+	h.restoreDefaults()
+	defer h.restoreDefaults()
+	cmd := newCommand()
+	c.Args = append([]string{"--" + config.FlagRootDir + "=" + h.home}, args(c.Flags)...)
+	if err := cmd.ParseFlags(c.Args); err != nil {
+		o.ParseErr = err
+		return o
+	}
+	func() {
+		defer func() {
+			if p := recover(); p != nil {
+				o.Panic = fmt.Sprint(p)
+			}
+		}()
+		o.Cfg, o.Err = config.Load(cmd)
+	}()
+	if o.Panic != "" {
+		h.checkDefaults(c, nil)
+		return o
+	}
+	o.RootDir = o.Cfg.RootDir
+	o.Vals = h.d.valsOf(&o.Cfg) // Load returns the partly decoded Config together with an error
+	h.checkDefaults(c, &o)
+	if o.Err != nil {
+		o.Vals = nil
+		return o
+	}
+	// cut the result loose from whatever it may share with the defaults
+	if o.Cfg.Instrumentation != nil {
+		ins := *o.Cfg.Instrumentation
+		o.Cfg.Instrumentation = &ins
+	}
+	return o
+}
+
+// checkDefaults: a Load must leave the default configuration as it found it.
+func (h *harness) checkDefaults(c *Case, o *outcome) {
+	cur := h.d.valsOf(&config.DefaultConfig)
+	diffs := h.d.diff(h.def, cur)
+	if o != nil && len(h.d.diff(h.def, o.Vals)) > 0 {
+		h.r.Hit("defaults-intact")
+	}
+	if len(diffs) == 0 {
+		return
+	}
+	shape := o != nil && o.Cfg.Instrumentation != nil && o.Cfg.Instrumentation == config.DefaultConfig.Instrumentation
+	for _, d := range diffs {
+		if !strings.HasPrefix(d.Path, "instrumentation.") || o == nil || o.Vals[d.Path] != cur[d.Path] {
+			shape = false
+		}
+	}
+	detail := fmt.Sprintf("config.Load changed config.DefaultConfig: %s", diffText(diffs))
+	w := map[string]any{"case": c, "default_config_diffs": diffs}
+	if shape {
+		h.finding(idAlias, "defaults-intact", detail+" (the returned Config and DefaultConfig share one *InstrumentationConfig; the next Load in this process starts from these values)", w)
+	} else {
+		h.r.Violation("defaults-intact", detail, w)
+	}
+}
+
+func diffText(ds []Diff) string {
+	var parts []string
+	for i, d := range ds {
+		if i == 6 {
+			parts = append(parts, fmt.Sprintf("… (%d in all)", len(ds)))
+			break
+		}
+		parts = append(parts, fmt.Sprintf("%s: want %s got %s", d.Path, d.Want, d.Got))
+	}
+	return strings.Join(parts, "; ")
+}
+
+// expected is the reference model: defaults < file < flags.
+func (h *harness) expected(c *Case) Vals {
+	e := h.def.clone()
+	if c.HasFile {
+		for _, a := range c.File {
+			e[a.Path] = a.val
+		}
+	}
+	for _, a := range c.Flags {
+		if a.Path != "" {
+			e[a.Path] = a.val
+		}
+	}
+	return e
+}
+
+// judge compares an outcome with the model. It returns the differing options (nil when equal) and reports
+// hard failures (flag rejected, Load error, panic, wrong root dir) itself.
+func (h *harness) judge(c *Case, o outcome, want Vals, clause string) ([]Diff, bool) {
+	switch {
+	case o.ParseErr != nil:
+		h.violation(clause, "parse:"+errSig(o.ParseErr), fmt.Sprintf("the flag set rejects a legal value: %v", o.ParseErr), map[string]any{"case": c})
+		return nil, false
+	case o.Panic != "":
+		h.violation(clause, "panic", "config.Load panicked: "+o.Panic, map[string]any{"case": c})
+		return nil, false
+	case o.Err != nil:
+		h.violation(clause, "err:"+errSig(o.Err), fmt.Sprintf("config.Load failed on a valid file / valid flags: %v", o.Err), map[string]any{"case": c})
+		return nil, false
+	}
+	if o.RootDir != h.home {
+		h.r.Violation("home-flag", fmt.Sprintf("RootDir is %q, --home said %q", o.RootDir, h.home), map[string]any{"case": c})
+		return nil, false
+	}
+	return h.d.diff(want, o.Vals), true
+}
+
+func assign(l *Leaf, v Value) Assign { return Assign{Path: l.Path, Text: v.File, val: v.V} }
+
+func flagAssign(l *Leaf, f *FlagInfo, v Value) Assign {
+	a := Assign{Path: l.Path, Flag: f.Name, Text: v.Flag, Bare: v.Bare, val: v.V}
+	return a
+}
+
+// background adds random sources for every option other than skip.
+func (h *harness) background(rng *rand.Rand, c *Case, skip *Leaf) {
+	for _, m := range h.d.Leaves {
+		if m == skip {
+			continue
+		}
+		p := rng.Intn(100)
+		switch {
+		case p < 40: // left to the default
+		case p < 70 || m.Flag == nil:
+			c.File = append(c.File, assign(m, randomValue(rng, m)))
+		case p < 85:
+			c.Flags = append(c.Flags, flagAssign(m, m.Flag, randomValue(rng, m)))
+		default:
+			c.File = append(c.File, assign(m, randomValue(rng, m)))
+			c.Flags = append(c.Flags, flagAssign(m, m.Flag, randomValue(rng, m)))
+		}
+	}
+}
+
+func shuffleAssign(rng *rand.Rand, a []Assign) {
+	rng.Shuffle(len(a), func(i, j int) { a[i], a[j] = a[j], a[i] })
+}
+
+// ---- phase: option x pattern x value ------------------------------------------------------------------
+
+func (h *harness) patterns(rng *rand.Rand, nvals int) {
+	r := h.r
+	for li, l := range h.d.Leaves {
+		vals := valuesFor(rng, l, nvals, li*nvals, h.clean)
+		flag, legacy := l.Flag, false
+		if flag == nil && l.LegacyFlag != nil {
+			flag, legacy = l.LegacyFlag, true
+		}
+		for _, v := range vals {
+			for p := 0; p < 8; p++ {
+				noisy, hasFile, hasFlag := p&4 != 0, p&2 != 0, p&1 != 0
+				if hasFlag && flag == nil {
+					r.Count("patterns_not_applicable_option_has_no_flag", 1)
+					continue
+				}
+				c := &Case{Region: "pattern", Field: l.Path, Pattern: fmt.Sprintf("background=%v file=%v flag=%v", noisy, hasFile, hasFlag)}
+				if legacy && hasFlag {
+					c.Region = "pattern/trigger:" + idSignerFlags
+				}
+				if noisy {
+					h.background(rng, c, l)
+				}
+				var lower Value
+				if hasFile && hasFlag {
+					lower = another(rng, l, v, vals)
+				}
+				if hasFile {
+					fv := v
+					if hasFlag {
+						fv = lower
+					}
+					c.File = append(c.File, assign(l, fv))
+				}
+				if hasFlag {
+					c.Flags = append(c.Flags, flagAssign(l, flag, v))
+				}
+				shuffleAssign(rng, c.File)
+				shuffleAssign(rng, c.Flags)
+				c.HasFile = hasFile || len(c.File) > 0
+				if noisy && !hasFile && rng.Intn(2) == 0 {
+					// noisy background purely on the command line: keep "file absent" literally true
+					c.File, c.HasFile = nil, false
+				}
+				c.FileText = renderYAML(c.File)
+				h.runPattern(c, l, flag, legacy, v, lower, hasFile, hasFlag)
+			}
+		}
+	}
+}
+
+func (h *harness) runPattern(c *Case, l *Leaf, flag *FlagInfo, legacy bool, v, lower Value, hasFile, hasFlag bool) {
+	r := h.r
+	h.setFile(c)
+	o := h.load(c)
+	want := h.expected(c)
+	r.Eval(c.Region+"|"+l.Path+"|"+c.Pattern+"|"+v.key(), hasFile || hasFlag, h.sample(c, l, want))
+	diffs, ok := h.judge(c, o, want, "precedence")
+	if !ok {
+		return
+	}
+	def := h.def[l.Path]
+	clause := "default-when-absent"
+	nonVacuous := true
+	switch {
+	case hasFile && hasFlag:
+		clause = "flag-over-file"
+	case hasFlag:
+		clause, nonVacuous = "flag-over-default", v.V != def
+	case hasFile:
+		clause, nonVacuous = "file-over-default", v.V != def
+	}
+	if len(diffs) == 0 {
+		if nonVacuous {
+			r.Hit(clause)
+		}
+		r.HitN("no-other-option-changes", int64(len(h.d.Leaves)-1))
+		if hasFile && !hasFlag && v.V != def && !h.fileOK[l.Path] {
+			h.fileOK[l.Path] = true
+			r.Hit("every-option-settable-from-file")
+		}
+		competitor := def
+		if hasFile {
+			competitor = lower.V
+		}
+		if hasFlag && v.V != competitor && !h.flagOK[flag.Name] {
+			h.flagOK[flag.Name] = true
+			if legacy {
+				r.Count("legacy_signer_flag_now_reaches_its_option", 1)
+			} else {
+				r.Hit("every-flag-reaches-the-option-it-names")
+			}
+		}
+		return
+	}
+	w := map[string]any{"case": c, "diffs": diffs}
+	if legacy && hasFlag {
+		// predicted shape of C18-signer-flags: the flag is ignored, the option keeps the file / default value,
+		// nothing else differs
+		ign := *c
+		ign.Flags = nil
+		for _, f := range c.Flags {
+			if f.Flag != flag.Name {
+				ign.Flags = append(ign.Flags, f)
+			}
+		}
+		if len(h.d.diff(h.expected(&ign), o.Vals)) == 0 {
+			h.finding(idSignerFlags, "every-flag-reaches-the-option-it-names",
+				fmt.Sprintf("--%s=%s is ignored: %s stays %s (%s)", flag.Name, v.Flag, l.Path, show(o.Vals[l.Path]), c.Pattern), w)
+			return
+		}
+	}
+	h.violation(clause, diffSig(diffs), fmt.Sprintf("option %s, %s, value %s: %s", l.Path, c.Pattern, show(v.V), diffText(diffs)), w)
+}
+
+// sample hands a sample to the evidence only for every 173rd case, so that the few samples kept come from
+// different options and patterns.
+func (h *harness) sample(c *Case, l *Leaf, want Vals) any {
+	h.nSample++
+	if h.nSample%173 != 1 {
+		return nil
+	}
+	return sampleOf(c, l, want)
+}
+
+func sampleOf(c *Case, l *Leaf, want Vals) any {
+	s := map[string]any{"region": c.Region, "pattern": c.Pattern, "file_options": len(c.File), "flags": len(c.Flags)}
+	if l != nil {
+		s["option"] = l.Path
+		s["expected"] = show(want[l.Path])
+		for _, a := range c.File {
+			if a.Path == l.Path && c.HasFile {
+				s["file_says"] = a.Text
+			}
+		}
+		for _, a := range c.Flags {
+			if a.Path == l.Path {
+				s["flag_says"] = "--" + a.Flag + "=" + a.Text
+			}
+		}
+	}
+	return s
+}
+
+// ---- phase: two loads in one process -------------------------------------------------------------------------
+
+// sequences: a Load whose file sets options, then, WITHOUT the harness restoring anything in between, a Load with
+// neither file nor flags: the second one must return the defaults ("else default"). This is where the shared
+// *InstrumentationConfig (C18-default-aliasing) becomes visible at the level of the property itself.
+func (h *harness) sequences(rng *rand.Rand, n int) {
+	r := h.r
+	for i := 0; i < n; i++ {
+		a := &Case{Region: "sequence/first"}
+		for _, l := range h.d.Leaves {
+			if rng.Intn(3) > 0 {
+				a.File = append(a.File, assign(l, randomValue(rng, l)))
+			}
+		}
+		a.HasFile, a.FileText = true, renderYAML(a.File)
+		b := &Case{Region: "sequence/second"}
+		h.restoreDefaults()
+		h.keepDefaults = true
+		h.setFile(a)
+		oa := h.load(a)
+		h.setFile(b)
+		ob := h.load(b)
+		h.keepDefaults = false
+		h.restoreDefaults()
+		r.Eval("sequence|"+a.FileText, true, nil)
+		if _, ok := h.judge(a, oa, h.expected(a), "precedence"); !ok {
+			continue
+		}
+		diffs, ok := h.judge(b, ob, h.def, "default-when-absent")
+		if !ok {
+			continue
+		}
+		if len(diffs) == 0 {
+			r.Hit("default-after-earlier-load")
+			continue
+		}
+		w := map[string]any{"first_load": a, "second_load": b, "diffs": diffs}
+		shape := true
+		for _, d := range diffs {
+			if !strings.HasPrefix(d.Path, "instrumentation.") || ob.Vals[d.Path] != oa.Vals[d.Path] {
+				shape = false
+			}
+		}
+		detail := "a Load with neither file nor flag, after an earlier Load in the same process, does not return the defaults: " + diffText(diffs)
+		if shape {
+			h.finding(idAlias, "default-after-earlier-load", detail+" (values the EARLIER Load read from its file)", w)
+		} else {
+			h.violation("default-after-earlier-load", diffSig(diffs), detail, w)
+		}
+	}
+}
+
+// ---- phase: flags that are not options, flags that name no option -----------------------------------------
+
+func (h *harness) flagClasses() {
+	r := h.r
+	for _, f := range h.d.Flags {
+		switch f.Class {
+		case "by-design":
+			if f.Name == config.FlagRootDir {
+				// reaches RootDir: judged in every single case (judge compares RootDir with --home)
+				c := &Case{Region: "by-design-flag", Field: f.Name}
+				h.setFile(c)
+				o := h.load(c)
+				if diffs, ok := h.judge(c, o, h.def, "home-flag"); ok {
+					if len(diffs) > 0 {
+						r.Violation("home-flag", "--home alone changed options: "+diffText(diffs), map[string]any{"case": c, "diffs": diffs})
+					} else {
+						r.Hit("home-flag")
+					}
+				}
+				r.Eval("by-design|"+f.Name, false, nil)
+				continue
+			}
+			// the passphrase: changes no option and is never written to disk
+			const token = "c18-Secret-Passphrase-7f3a"
+			c := &Case{Region: "by-design-flag", Field: f.Name, Flags: []Assign{{Flag: f.Name, Text: token}}}
+			h.setFile(c)
+			o := h.load(c)
+			r.Eval("by-design|"+f.Name, false, nil)
+			diffs, ok := h.judge(c, o, h.def, "passphrase-flag")
+			if !ok {
+				continue
+			}
+			if len(diffs) > 0 {
+				r.Violation("passphrase-flag", "the passphrase flag changed options: "+diffText(diffs), map[string]any{"case": c, "diffs": diffs})
+				continue
+			}
+			cfg := o.Cfg
+			if err := cfg.SaveAsYaml(); err != nil {
+				r.Violation("passphrase-flag", "SaveAsYaml failed: "+err.Error(), map[string]any{"case": c})
+				continue
+			}
+			b, _ := os.ReadFile(h.cfgPath)
+			_ = os.Remove(h.cfgPath)
+			if strings.Contains(string(b), token) {
+				r.Violation("passphrase-flag", "the passphrase was written to the configuration file", map[string]any{"case": c, "file": string(b)})
+				continue
+			}
+			r.Hit("passphrase-flag")
+		case "unmatched":
+			text := map[string]string{"string": "c18-probe-value", "bool": "true", "duration": "7h7m7s", "float64": "7.25", "float32": "7.25"}[f.Type]
+			if text == "" {
+				text = "7"
+			}
+			if f.Type == "bool" && f.DefValue == "true" {
+				text = "false"
+			}
+			c := &Case{Region: "unmatched-flag", Field: f.Name, Flags: []Assign{{Flag: f.Name, Text: text}}}
+			h.setFile(c)
+			o := h.load(c)
+			r.Eval("unmatched|"+f.Name, true, nil)
+			diffs, ok := h.judge(c, o, h.def, "every-flag-reaches-the-option-it-names")
+			if !ok {
+				continue
+			}
+			w := map[string]any{"case": c, "diffs": diffs}
+			switch len(diffs) {
+			case 0:
+				r.Violation("every-flag-reaches-the-option-it-names",
+					fmt.Sprintf("flag --%s names no option (no option has the path %q) and setting it to %q changes no option: silently ignored", f.Name, f.Stripped, text), w)
+			case 1:
+				r.Count("flag_names_no_option_path_but_reaches_one_option", 1)
+				r.Set("flag_reaching_differently_named_option:"+f.Name, diffs[0].Path)
+			default:
+				r.Violation("every-flag-reaches-the-option-it-names", fmt.Sprintf("flag --%s names no option and changes %d options: %s", f.Name, len(diffs), diffText(diffs)), w)
+			}
+		}
+	}
+}
+
+// ---- phase: random whole configurations, mixed sources, file by either writer ------------------------------
+
+func (h *harness) mixed(rng *rand.Rand, n int) {
+	r := h.r
+	var passphrase *FlagInfo
+	for _, f := range h.d.Flags {
+		if f.Name == config.FlagSignerPassphrase {
+			passphrase = f
+		}
+	}
+	for i := 0; i < n; i++ {
+		c := &Case{Region: "mixed"}
+		h.background(rng, c, nil)
+		if passphrase != nil && rng.Intn(4) == 0 {
+			c.Flags = append(c.Flags, Assign{Flag: passphrase.Name, Text: randomCleanString(rng)})
+		}
+		shuffleAssign(rng, c.File)
+		shuffleAssign(rng, c.Flags)
+		c.HasFile = len(c.File) > 0
+		bySave := c.HasFile && rng.Intn(2) == 0
+		if bySave {
+			// the file is written by SaveAsYaml from (defaults + file assignments): it then names every option
+			c.Region = "mixed/saved-file"
+			fv := h.def.clone()
+			for _, a := range c.File {
+				fv[a.Path] = a.val
+			}
+			cfg := h.d.build(fv, h.home)
+			_ = os.Remove(h.cfgPath)
+			if err := cfg.SaveAsYaml(); err != nil {
+				r.Violation("save", "SaveAsYaml failed: "+err.Error(), map[string]any{"case": c})
+				continue
+			}
+			b, _ := os.ReadFile(h.cfgPath)
+			c.FileText = string(b)
+		} else {
+			c.FileText = renderYAML(c.File)
+			h.setFile(c)
+		}
+		o := h.load(c)
+		want := h.expected(c)
+		nsrc := 0
+		if c.HasFile {
+			nsrc++
+		}
+		if len(c.Flags) > 0 {
+			nsrc++
+		}
+		r.Eval(fmt.Sprintf("mixed|%v|%s|%v", bySave, c.FileText, args(c.Flags)), nsrc > 0, sampleOf(c, nil, want))
+		diffs, ok := h.judge(c, o, want, "mixed-precedence")
+		if !ok {
+			continue
+		}
+		if len(diffs) > 0 {
+			h.violation("mixed-precedence", diffSig(diffs), fmt.Sprintf("%d options in the file, %d flags: %s", len(c.File), len(c.Flags), diffText(diffs)), map[string]any{"case": c, "diffs": diffs})
+			continue
+		}
+		r.Hit("mixed-precedence")
+		h.fromViper(c, want)
+	}
+}
+
+// fromViper: LoadFromViper documents "the same precedence as Load"; it is driven as the package's own test does
+// (explicit values set on a viper instance under the flag names).
+func (h *harness) fromViper(c *Case, want Vals) {
+	r := h.r
+	h.restoreDefaults()
+	defer h.restoreDefaults()
+	v := viper.New()
+	v.Set(config.FlagRootDir, h.home)
+	for _, a := range c.Flags {
+		if a.Bare {
+			v.Set(a.Flag, true)
+		} else {
+			v.Set(a.Flag, a.Text)
+		}
+	}
+	var cfg config.Config
+	var err error
+	var pan string
+	func() {
+		defer func() {
+			if p := recover(); p != nil {
+				pan = fmt.Sprint(p)
+			}
+		}()
+		cfg, err = config.LoadFromViper(v)
+	}()
+	w := map[string]any{"case": c}
+	if pan != "" || err != nil {
+		h.violation("load-from-viper", "err:"+fmt.Sprint(err)[:min(80, len(fmt.Sprint(err)))]+pan, fmt.Sprintf("LoadFromViper failed where Load succeeded: %v %s", err, pan), w)
+		return
+	}
+	got := h.d.valsOf(&cfg)
+	if diffs := h.d.diff(want, got); len(diffs) > 0 || cfg.RootDir != h.home {
+		w["diffs"] = diffs
+		h.violation("load-from-viper", diffSig(diffs), fmt.Sprintf("LoadFromViper differs from the model (and from Load): root=%q %s", cfg.RootDir, diffText(diffs)), w)
+		return
+	}
+	r.Hit("load-from-viper")
+}
+
+// ---- phase: SaveAsYaml -> Load -----------------------------------------------------------------------------
+
+// saveLoad writes the configuration holding vals with SaveAsYaml and loads it back without flags.
+func (h *harness) saveLoad(c *Case, vals Vals) (outcome, bool) {
+	_ = os.Remove(h.cfgPath)
+	cfg := h.d.build(vals, h.home)
+	var err error
+	var pan string
+	func() {
+		defer func() {
+			if p := recover(); p != nil {
+				pan = fmt.Sprint(p)
+			}
+		}()
+		err = cfg.SaveAsYaml()
+	}()
+	if err != nil || pan != "" {
+		h.r.Violation("save", fmt.Sprintf("SaveAsYaml failed: %v %s", err, pan), map[string]any{"case": c, "written": stringVals(vals)})
+		return outcome{}, false
+	}
+	b, _ := os.ReadFile(h.cfgPath)
+	c.FileText, c.HasFile = string(b), true
+	return h.load(c), true
+}
+
+func stringVals(v Vals) map[string]string {
+	o := map[string]string{}
+	for k, x := range v {
+		o[k] = show(x)
+	}
+	return o
+}
+
+// judgeRoundTrip decides one SaveAsYaml -> Load case, region by region.
+func (h *harness) judgeRoundTrip(c *Case, written Vals, o outcome) {
+	r := h.r
+	var q, ts []string
+	num := map[string]Num{}
+	for _, l := range h.d.Leaves {
+		s, isStr := written[l.Path].(string)
+		if !isStr {
+			continue
+		}
+		if n, ok := triggerNumber(s); ok {
+			num[l.Path] = n
+		} else if triggerTimestamp(s) {
+			ts = append(ts, l.Path)
+		} else if triggerQuestion(s) {
+			q = append(q, l.Path)
+		}
+	}
+	w := map[string]any{"case": c, "written": stringVals(written)}
+	if o.Panic != "" {
+		r.Violation("save-load", "config.Load panicked on a file written by SaveAsYaml: "+o.Panic, w)
+		return
+	}
+	if o.ParseErr != nil {
+		r.Violation("save-load", "flag parsing failed: "+o.ParseErr.Error(), w)
+		return
+	}
+	inTrigger := len(q)+len(ts)+len(num) > 0
+	if o.Err != nil {
+		// predicted shape of C18-timestamp-like-strings: Load refuses the file with a decoding error
+		if len(q) == 0 && len(ts) > 0 && errors.Is(o.Err, config.ErrReadYaml) {
+			h.finding(idTimestamp, "save-load", fmt.Sprintf("%s = %s is saved unquoted, the reader takes it for a timestamp and Load fails: %v",
+				ts[0], show(written[ts[0]]), o.Err), w)
+			return
+		}
+		// second accepted shape of C18-question-mark-strings: should Load stop dropping the reader's error, the
+		// unparseable file makes it fail instead of returning the defaults
+		if len(q) > 0 {
+			h.finding(idQuestion, "save-load", fmt.Sprintf("%s = %s is saved unquoted, the file no longer parses and Load fails: %v", q[0], show(written[q[0]]), o.Err), w)
+			return
+		}
+		h.violation("save-load", "err:"+errSig(o.Err), fmt.Sprintf("config.Load fails on a file written by SaveAsYaml: %v", o.Err), w)
+		return
+	}
+	diffs := h.d.diff(written, o.Vals)
+	w["diffs"] = diffs
+	if o.RootDir != h.home {
+		r.Violation("save-load", fmt.Sprintf("RootDir %q, want %q", o.RootDir, h.home), w)
+		return
+	}
+	if len(diffs) == 0 {
+		if inTrigger {
+			r.Count("trigger_region_case_loaded_back_equal", 1)
+		} else {
+			r.Hit("save-load")
+		}
+		return
+	}
+	switch {
+	case len(q) > 0:
+		// predicted shape of C18-question-mark-strings: the file cannot be parsed, the error is dropped, the result is
+		// the default configuration
+		if len(h.d.diff(h.def, o.Vals)) == 0 {
+			h.finding(idQuestion, "save-load", fmt.Sprintf("%s = %s is saved unquoted, the file no longer parses, Load drops the error and returns the defaults: %d options lost (%s)",
+				q[0], show(written[q[0]]), len(diffs), diffText(diffs)), w)
+			return
+		}
+	case len(ts) > 0:
+		// a timestamp-like string must make Load fail (handled above) or survive
+	case len(num) > 0:
+		// predicted shape of C18-float-like-strings: only the options holding such strings differ, each loads back as
+		// the text of the number it denotes
+		shape := true
+		for _, d := range diffs {
+			n, ok := num[d.Path]
+			got, isStr := o.Vals[d.Path].(string)
+			if !ok || !isStr || !reformatted(n, got) {
+				shape = false
+			}
+		}
+		if shape {
+			d := diffs[0]
+			h.finding(idFloatLike, "save-load", fmt.Sprintf("%s = %s is saved unquoted and loads back as %s", d.Path, d.Want, d.Got), w)
+			return
+		}
+	}
+	h.violation("save-load", diffSig(diffs), "a configuration written by SaveAsYaml does not load back equal: "+diffText(diffs), w)
+}
+
+func (h *harness) randomWhole(rng *rand.Rand) Vals {
+	v := Vals{}
+	for _, l := range h.d.Leaves {
+		if rng.Intn(6) == 0 {
+			v[l.Path] = h.def[l.Path]
+		} else {
+			v[l.Path] = randomValue(rng, l).V
+		}
+	}
+	return v
+}
+
+func (h *harness) roundTrips(rng *rand.Rand, n int) {
+	for i := 0; i < n; i++ {
+		vals := h.randomWhole(rng)
+		c := &Case{Region: "save-load"}
+		o, ok := h.saveLoad(c, vals)
+		h.r.Eval("save-load|"+fmt.Sprint(stringVals(vals)), true, nil)
+		if ok {
+			h.judgeRoundTrip(c, vals, o)
+		}
+	}
+}
+
+// survey puts single strings (number-like, date-like, "?"-like probe lists and random strings over YAML-significant
+// alphabets) into one string option of an otherwise default configuration. The class of the string decides the
+// region; outside the trigger regions every failure is a violation.
+func (h *harness) survey(rng *rand.Rand, nRandom int) {
+	var strLeaves []*Leaf
+	for _, l := range h.d.Leaves {
+		if l.Kind == "string" {
+			strLeaves = append(strLeaves, l)
+		}
+	}
+	if len(strLeaves) == 0 {
+		return
+	}
+	var list []string
+	list = append(list, curatedNumberLike...)
+	list = append(list, curatedTimestampLike...)
+	list = append(list, curatedQuestionLike...)
+	list = append(list, curatedStrings...)
+	for i := 0; i < nRandom; i++ {
+		switch rng.Intn(10) {
+		case 0, 1:
+			list = append(list, randomNumberLike(rng))
+		case 2:
+			list = append(list, randomTimestampLike(rng))
+		case 3:
+			list = append(list, randomQuestionLike(rng))
+		default:
+			list = append(list, randomFrom(rng, cleanAlphabets[rng.Intn(len(cleanAlphabets))], 1+rng.Intn(10)))
+		}
+	}
+	seen := map[string]bool{}
+	k := 0
+	for _, s := range list {
+		if seen[s] || !printable(s) {
+			continue
+		}
+		seen[s] = true
+		l := strLeaves[k%len(strLeaves)]
+		k++
+		vals := h.def.clone()
+		vals[l.Path] = s
+		region := "survey/clean"
+		if _, ok := triggerNumber(s); ok {
+			region = "survey/trigger:" + idFloatLike
+		} else if triggerTimestamp(s) {
+			region = "survey/trigger:" + idTimestamp
+		} else if triggerQuestion(s) {
+			region = "survey/trigger:" + idQuestion
+		}
+		h.r.Count("strings:"+region, 1)
+		c := &Case{Region: region, Field: l.Path}
+		o, ok := h.saveLoad(c, vals)
+		h.r.Eval("survey|"+s, true, map[string]any{"region": region, "option": l.Path, "string": s})
+		if ok {
+			h.judgeRoundTrip(c, vals, o)
+		}
+	}
+}
+
+// triggerWholes: random whole configurations in which 1-3 string options hold strings of one trigger class.
+func (h *harness) triggerWholes(rng *rand.Rand, n int) {
+	var strLeaves []*Leaf
+	for _, l := range h.d.Leaves {
+		if l.Kind == "string" {
+			strLeaves = append(strLeaves, l)
+		}
+	}
+	if len(strLeaves) == 0 {
+		return
+	}
+	for i := 0; i < n; i++ {
+		vals := h.randomWhole(rng)
+		class := i % 3
+		id := []string{idFloatLike, idTimestamp, idQuestion}[class]
+		for k := 1 + rng.Intn(3); k > 0; k-- {
+			l := strLeaves[rng.Intn(len(strLeaves))]
+			for {
+				var s string
+				switch class {
+				case 0:
+					s = randomNumberLike(rng)
+					if _, ok := triggerNumber(s); !ok {
+						continue
+					}
+				case 1:
+					s = randomTimestampLike(rng)
+					if !triggerTimestamp(s) {
+						continue
+					}
+				default:
+					s = randomQuestionLike(rng)
+					if !triggerQuestion(s) {
+						continue
+					}
+				}
+				vals[l.Path] = s
+				break
+			}
+		}
+		c := &Case{Region: "save-load/trigger:" + id}
+		o, ok := h.saveLoad(c, vals)
+		h.r.Eval("trigger-whole|"+fmt.Sprint(stringVals(vals)), true, nil)
+		if ok {
+			h.judgeRoundTrip(c, vals, o)
+		}
+	}
+}
+
+// ---- entry point -------------------------------------------------------------------------------------------
+
+func unsetEnv(d *Discovery) {
+	exe, _ := os.Executable()
+	base := filepath.Base(exe)
+	names := map[string]bool{}
+	add := func(k string) {
+		names[strings.ToUpper(k)] = true
+		names[base+"_"+strings.ToUpper(strings.ReplaceAll(k, "-", "_"))] = true
+	}
+	for _, l := range d.Leaves {
+		add(l.Path)
+		add(l.MapPath)
+		add("rollkit." + l.Path)
+	}
+	for _, f := range d.Flags {
+		if f.Name == config.FlagRootDir {
+			continue
+		}
+		add(f.Name)
+		add(f.Stripped)
+	}
+	for k := range names {
+		_ = os.Unsetenv(k)
+	}
+}
+
 // Run is the check entry point.
 func Run(r *vk.Run) {
-	r.Rule = "not implemented yet"
+	r.Rule = "options = leaf fields of config.Config found by reflection (yaml-tag paths), flags = VisitAll over AddFlags+AddGlobalFlags; " +
+		"pattern cases: every option x (background quiet|noisy, file absent|present, flag absent|present) x N values of its type " +
+		"(bools; ints 0,1,max,...; floats incl. negatives and extremes; durations; printable single-line strings incl. YAML-significant ones), " +
+		"the higher source carries the value, the lower one a different value; mixed cases: every option independently from default|file|flag|both, file written by the harness or by SaveAsYaml; " +
+		"save-load cases: random whole configurations through SaveAsYaml -> Load; survey: one probe string in one string option; genesis cases. " +
+		"non-trivial = at least one of file/flag present (>= 2 sources compete); distinct by parameter tuple (region, option, pattern, value texts / full file+args)"
+	r.Assume("no environment variable is named after a configuration key (viper's AutomaticEnv would make it a fourth source); the check unsets such names at start")
+	r.Assume("cases run one at a time in this process; config.DefaultConfig is restored to its start-up value before and after every Load")
+	r.Assume("files of the precedence cases are produced by the harness's own YAML writer; the reader is whatever config.Load uses")
+
+	d := discover()
+	unsetEnv(d)
+	scratch := tempDir(vk.Root(), "C18-*")
+	defer os.RemoveAll(scratch)
+	h := &harness{r: r, d: d, scratch: scratch, home: filepath.Join(scratch, "home"), calls: map[string]int{}, sigs: map[string]int{}, fileOK: map[string]bool{}, flagOK: map[string]bool{}}
+	h.cfgPath = filepath.Join(h.home, config.AppConfigDir, config.ConfigName)
+	_ = os.MkdirAll(filepath.Dir(h.cfgPath), 0o755)
+	h.defCfg = config.DefaultConfig
+	if config.DefaultConfig.Instrumentation != nil {
+		ins := *config.DefaultConfig.Instrumentation
+		h.defIns = &ins
+	}
+	h.restoreDefaults()
+	h.def = d.valsOf(&config.DefaultConfig)
+
+	// evidence: what reflection found
+	var fields, flags, noFlag []string
+	nField, nLegacy, nByDesign, nUnmatched := 0, 0, 0, 0
+	for _, l := range d.Leaves {
+		fl := "-"
+		if l.Flag != nil {
+			fl = "--" + l.Flag.Name
+		} else {
+			noFlag = append(noFlag, l.Path)
+		}
+		fields = append(fields, fmt.Sprintf("%s (%s, %s, default %s, mapstructure %s, flag %s)", l.Path, l.GoName, l.Kind, show(h.def[l.Path]), l.MapPath, fl))
+	}
+	for _, f := range d.Flags {
+		flags = append(flags, fmt.Sprintf("--%s (%s, default %q): %s", f.Name, f.Type, f.DefValue, f.Class))
+		switch f.Class {
+		case "field":
+			nField++
+		case "legacy-signer":
+			nLegacy++
+		case "by-design":
+			nByDesign++
+		default:
+			nUnmatched++
+		}
+	}
+	r.Set("fields_discovered", len(d.Leaves))
+	r.Set("flags_discovered", len(d.Flags))
+	r.Set("fields", fields)
+	r.Set("flags", flags)
+	r.Set("fields_without_flag", noFlag)
+	r.Set("flag_classes", map[string]int{"names_an_option": nField, "by_design_not_an_option": nByDesign, "legacy_signer_trigger_region": nLegacy, "names_no_option": nUnmatched})
+	for _, u := range d.Unsupported {
+		r.Inconclusive("option of a type this check has no value generator for: " + u)
+	}
+	if len(d.Leaves) == 0 || len(d.Flags) == 0 {
+		r.Inconclusive("reflection found no options or no flags")
+		return
+	}
+
+	// clean-region string list (curated members that fall into a trigger region are dropped and counted)
+	for _, s := range curatedStrings {
+		if cleanString(s) {
+			h.clean = append(h.clean, s)
+		} else {
+			r.Count("curated_strings_outside_clean_region", 1)
+		}
+	}
+
+	nvals := r.N(5, 50)
+	h.flagClasses()
+	h.patterns(r.Rand("patterns"), nvals)
+	h.sequences(r.Rand("sequences"), r.N(20, 300))
+	h.mixed(r.Rand("mixed"), r.N(200, 2000))
+	h.roundTrips(r.Rand("save-load"), r.N(200, 5000))
+	h.survey(r.Rand("survey"), r.N(600, 12000))
+	h.triggerWholes(r.Rand("trigger-wholes"), r.N(60, 600))
+	genesisChecks(h, r.Rand("genesis"), r.N(200, 5000))
+
+	// exhaustiveness over what was discovered
+	var missFile, missFlag []string
+	for _, l := range d.Leaves {
+		if !h.fileOK[l.Path] {
+			missFile = append(missFile, l.Path)
+		}
+	}
+	for _, f := range d.Flags {
+		if f.Class == "field" && !h.flagOK[f.Name] {
+			missFlag = append(missFlag, f.Name)
+		}
+	}
+	sort.Strings(missFile)
+	sort.Strings(missFlag)
+	r.Set("options_never_set_from_file", missFile)
+	r.Set("flags_never_seen_reaching_their_option", missFlag)
+	r.Require("every-option-settable-from-file", int64(len(d.Leaves)))
+	r.Require("every-flag-reaches-the-option-it-names", int64(nField))
+	r.Require("flag-over-file", int64(nField))
+	r.Require("file-over-default", int64(len(d.Leaves)))
+	r.Require("flag-over-default", int64(nField))
+	r.Require("default-when-absent", int64(len(d.Leaves)))
+	r.Require("save-load", int64(r.N(100, 2500)))
+	r.Require("mixed-precedence", int64(r.N(100, 1000)))
+	r.Require("genesis-round-trip", int64(r.N(100, 2500)))
+	r.Require("genesis-invalid-refused", 50)
+	r.Require("genesis-create", 10)
+	r.SetExhaustive(len(missFile) == 0 && len(missFlag) == 0 && len(d.Unsupported) == 0)
 }
